@@ -506,7 +506,9 @@ func ruleSKIPOK(w *World, r *Report) {
 							}
 							p := addrPath(st2.Addr)
 							if strings.HasSuffix(p.Path, ".shardInfos[*]") {
-								if !instrDominates(okc, st2) {
+								// fine: ok() precedes the store in the same pass, or all ok() calls are over
+								// before any store happens (two passes); wrong: ok() can run after a store
+								if !instrDominates(okc, st2) && instrReaches(st2, okc) {
 									viol = w.ipos(st2)
 								}
 							}
@@ -738,6 +740,62 @@ func ruleREPORTPROP(w *World, r *Report) {
 
 const ruleENTRYSEQText = "the entry points declare success only through the decoder's own verdict: in parN.verify every success return is dominated by newDecoder, LoadFileData and LoadParityData and returns counts taken from decoder.ShardCounts()/FileCounts(); in parN.repair every return whose error may be nil is dominated by those calls and by (*Decoder).Repair, and its error is that call's error - no fast path may report success from a partial view of the damage"
 
+// mustPassCall: is `at` dominated by a call of target - directly, or by a call of a
+// private helper every success return of which is itself dominated by such a call?
+func mustPassCall(at ssa.Instruction, target string, depth int) bool {
+	fn := at.Parent()
+	for _, c := range callInstrs(fn) {
+		if !instrDominates(c, at) {
+			continue
+		}
+		if staticCalleeShort(c.Common()) == target {
+			return true
+		}
+		if depth >= 3 {
+			continue
+		}
+		g := c.Common().StaticCallee()
+		if g == nil || len(g.Blocks) == 0 || g.Pkg == nil || g.Pkg != fn.Pkg || anchorNames()[shortName(g)] {
+			continue
+		}
+		if g.Object() != nil && g.Object().Exported() {
+			continue
+		}
+		all, n := true, 0
+		for _, b := range g.Blocks {
+			ret, ok := b.Instrs[len(b.Instrs)-1].(*ssa.Return)
+			if !ok {
+				continue
+			}
+			// returns that certainly carry an error are not success
+			certainErr := false
+			for _, res := range ret.Results {
+				if isErrorType(res.Type()) && definitelyNonNilError(res) {
+					certainErr = true
+				}
+				if isErrorType(res.Type()) && !isNilConst(res) {
+					for _, cm := range cmpsAt(b) {
+						if cm.Op == token.NEQ && cm.Y != nil && ((cm.X == res && isNilConst(cm.Y)) || (cm.Y == res && isNilConst(cm.X))) {
+							certainErr = true
+						}
+					}
+				}
+			}
+			if certainErr {
+				continue
+			}
+			n++
+			if !mustPassCall(ret, target, depth+1) {
+				all = false
+			}
+		}
+		if all && n > 0 {
+			return true
+		}
+	}
+	return false
+}
+
 func ruleENTRYSEQ(w *World, r *Report, pkgs ...string) {
 	r.rule("ENTRY-SEQ", ruleENTRYSEQText)
 	for _, pkg := range pkgs {
@@ -796,8 +854,7 @@ func ruleENTRYSEQ(w *World, r *Report, pkgs ...string) {
 				nret++
 				missing := ""
 				for _, n := range need {
-					c := calls[n]
-					if c == nil || !instrDominates(c, ret) {
+					if !mustPassCall(ret, n, 0) {
 						missing = n
 					}
 				}
